@@ -81,15 +81,16 @@ def run(prop, tier):
         out.extra["families"] = stats["families"]
         out.extra["max_ms"] = stats["max_ms"]
         out.extra["events_judged_by_tlc"] = len(events)
-        out.rule = ("one evaluation = one call of xml_xpath::query in a child process with a 5 s limit; non-trivial = the "
+        out.rule = ("one evaluation = one call of xml_xpath::query in a child process with a 15 s wall-clock limit; non-trivial = the "
                     "call returned a value (the rest returned an error)")
         out.assumptions = [
             "families parens/parenpath/preds/steps/dsteps/unions/minus/deeppred/args/ors/filters for n <= 40 exhaustively "
             "chosen sizes plus deep members (n up to 3000 quick / 20000 thorough); 45 named constructs (unsupported "
             "features, steps that select nothing, ill-typed and out-of-range arguments) on 3 documents",
             "garbage: seeded strings of <= 12 tokens over a 66-token XPath alphabet and single edits of valid spellings",
-            "time is wall-clock milliseconds in the child (no tick hook in /repo): the bound MaxMs(F, n) = 1000 + n^2 ms "
-            "only separates polynomial from exponential behaviour; a call slower than 1 s is always judged by TLC",
+            "time is the CPU time of the call in the child (no tick hook in /repo; 10 ms resolution), the wall-clock limit "
+            "of a call is 15 s: the bound MaxMs(F, n) = 1000 + n^2 ms only separates polynomial from exponential "
+            "behaviour; a call slower than 1 s is always judged by TLC",
             "only calls that are not trivially fine (outcome ok/err within 1 s) and a sample of the others are judged by "
             "Trace_XPathCost.tla; family members and named constructs are always judged",
         ]
